@@ -190,8 +190,11 @@ class IncSolver:
             self.set_timeout(timeout_ms)
         t = time.time()
         r = self.s.check(*assumptions)
-        self.time += time.time() - t
+        dt = time.time() - t
+        self.time += dt
         self.nchecks += 1
+        if timeout_ms > 500 and r != z3.unsat:
+            SLOW[0] -= dt
         return r
 
 
@@ -276,9 +279,14 @@ class Result:
 
 
 MAX_POOL = 400
+HARD_HITS = 0
+# seconds one task may still spend on queries that do *not* come back unsat (a proof that succeeds
+# does so in milliseconds; a mutated function would otherwise burn every time-out of every open
+# obligation in turn).  Reset by verify_contract.
+SLOW = [45.0]
 
 
-def instantiate(facts, qfacts, bounds, extra, rounds=3, max_pool=MAX_POOL):
+def instantiate(facts, qfacts, bounds, extra, rounds=3, max_pool=MAX_POOL, deadline=None):
     """Return the ground formula list: facts + extra + instances of every qfact at every
     index term of the pool (select indices of the ground part, bounds, +-1), `rounds` times."""
     ground = list(facts) + list(extra)
@@ -305,6 +313,8 @@ def instantiate(facts, qfacts, bounds, extra, rounds=3, max_pool=MAX_POOL):
             pool = dict(items)
         new = []
         for qi, q in enumerate(qfacts):
+            if deadline is not None and time.time() > deadline:
+                break           # fewer instances: an unsat answer stays sound, a model is re-validated
             for tid, t in list(pool.items()):
                 key = (qi, tid)
                 if key in done:
@@ -324,11 +334,48 @@ def instantiate(facts, qfacts, bounds, extra, rounds=3, max_pool=MAX_POOL):
     return ground, nrounds
 
 
+def _probe_in_child(s, timeout_ms):
+    """z3 does not honour its time or resource limits in every phase (observed: minutes inside
+    check() with a 10 s limit on large instantiated formulas).  The query is therefore first run
+    in a forked child that is killed at the deadline; only a query the child finishes in time
+    is repeated in this process (to obtain the model)."""
+    import select
+    import signal
+    r, w = os.pipe()
+    pid = os.fork()
+    if pid == 0:
+        try:
+            os.close(r)
+            res = s.check()
+            os.write(w, str(res).encode())
+        finally:
+            os._exit(0)
+    os.close(w)
+    deadline = timeout_ms / 1000.0 + 3.0
+    ready, _, _ = select.select([r], [], [], deadline)
+    out = os.read(r, 64).decode() if ready else ""
+    os.close(r)
+    if not ready:
+        try:
+            os.kill(pid, signal.SIGKILL)
+        except OSError:
+            pass
+    os.waitpid(pid, 0)
+    return out or None
+
+
 def check_ground(ground, timeout_ms=10000):
     s = z3.Solver()
     s.set("timeout", timeout_ms)
+    s.set("rlimit", int(timeout_ms) * 3000)      # z3's wall-clock timeout is not honoured in every phase
     s.add(*ground)
     t = time.time()
+    if len(ground) > 400:
+        probe = _probe_in_child(s, timeout_ms)
+        if probe is None:
+            return Result("unknown", None, len(ground), time.time() - t, reason="hard deadline (child killed)")
+        if probe == "unknown":
+            return Result("unknown", None, len(ground), time.time() - t, reason="unknown in probe")
     r = s.check()
     dt = time.time() - t
     if r == z3.unsat:
@@ -393,6 +440,7 @@ def check_ematch(facts, qfacts, bounds, extra, timeout_ms=10000):
     s.set("smt.mbqi", False)
     s.set("smt.ematching", True)
     s.set("timeout", timeout_ms)
+    s.set("rlimit", int(timeout_ms) * 3000)
     s.add(*facts)
     for q in qfacts:
         s.add(q.quant())
@@ -420,21 +468,45 @@ def prove(snapshot, goal, timeout_ms=10000, rounds=3, use_cvc5=False, validate=T
        sat -> counter-model, validated against the un-instantiated facts."""
     facts, qfacts, bounds = snapshot
     neg = z3.Not(goal)
+    t_start = time.time()
+    if SLOW[0] <= 0:
+        r = check_ematch(facts, qfacts, bounds, [neg], min(timeout_ms, 2000))
+        if r.status not in ("unsat", "sat"):
+            r.reason = "slow-query budget of the task used up"
+        return r
     r = check_ematch(facts, qfacts, bounds, [neg], timeout_ms)
     if r.status in ("unsat", "sat"):
         return r
+    SLOW[0] -= time.time() - t_start
+    if SLOW[0] <= 0:
+        r.reason = "slow-query budget of the task used up"
+        return r
     t_em = r.time_s
     last = None
+    global HARD_HITS
+    if HARD_HITS >= 2:
+        # this process already lost two queries to the hard deadline: the remaining open
+        # obligations of the task are reported undecided without the slow fallback
+        r.reason = "fallback skipped after repeated hard deadlines"
+        return r
+    deadline = time.time() + max(15.0, 3.0 * timeout_ms / 1000.0)
     for nr in ([rounds] if rounds <= 2 else [2, rounds]):
-        ground, used = instantiate(facts, qfacts, bounds, [neg], rounds=nr)
+        if last is not None and time.time() > deadline:
+            break
+        ground, used = instantiate(facts, qfacts, bounds, [neg], rounds=nr, deadline=deadline)
         r = check_ground(ground, timeout_ms)
         r.rounds = used
         r.backend = "z3-qf"
         last = r
         if r.status == "unsat":
             break
+        if r.status == "unknown" and str(r.reason).startswith("hard deadline"):
+            HARD_HITS += 1
+            break
     r = last
     r.time_s += t_em
+    if r.status != "unsat":
+        SLOW[0] -= time.time() - t_start
     if r.status == "unknown" and use_cvc5:
         r2 = check_cvc5(ground, timeout_s=max(10, timeout_ms // 1000))
         if r2.status == "unsat":
